@@ -200,6 +200,25 @@ Definition nstep (w : nworld) (op : tree) : nworld * tree :=
           | Panic _ => (w, T_PANIC)
           end
       end
+  (* NetcodeClient::new in unsecure mode: the client builds its own token (zero key, fixed expiry and timeout) *)
+  | TL [TN 128; TN k; TN now; TN protocol; TN cid; a; TB user; TB xnonce; TB c2s; TB s2c] =>
+      match d_addr a with
+      | Some sa =>
+          match token_generate now protocol NC_UNSECURE_EXPIRE_SECS cid (Z.of_N NC_UNSECURE_TIMEOUT_SECS) [sa] user
+                               (repeat 0 (N.to_nat NC_KEY_BYTES)) xnonce c2s s2c with
+          | Ok t =>
+              match nclient_new now t with
+              | Ok c => ({| nw_server := nw_server w; nw_clients := aput k c (nw_clients w);
+                            nw_tokens := aput (1000 + k) t (nw_tokens w); nw_replays := nw_replays w |},
+                         TL [TN 0; TB (token_write t)])
+              | Err e => (w, TL [TN 1; t_nerr e])
+              | Panic _ => (w, T_PANIC)
+              end
+          | Err e => (w, TL [TN 1; t_nerr e])
+          | Panic _ => (w, T_PANIC)
+          end
+      | None => (w, T_BAD_OP)
+      end
   | TL [TN 103; TN k; TN dt] =>
       on_nclient w k (fun c => do r <- nclient_update c dt; let (c', o) := r in
                                Ok (c', topt (fun ba => TL [TB (fst ba); t_addr (snd ba)]) o))
